@@ -64,4 +64,19 @@ func (*BytecodeCompiler).leaveScopeOnContinue
     invariant kept: forall j int :: 0 <= j && j < len(c.scopes) ==> elem(c.scopes, j) == old(elem(c.scopes, j)) && elem(c.scopes, j).typ == old(elem(c.scopes, j).typ) && streq(elem(c.scopes, j).label, old(elem(c.scopes, j).label))
     invariant count: ghost(closes, c) + old(downExcl(c, label, len(c.scopes) - 1 - range_idx)) == old(ghost(closes, c)) + old(downExcl(c, label, len(c.scopes) - 1))
     decreases len(c.scopes) - range_idx
+// ---- registering an upvalue (C13) ---------------------------------------------------------------
+// A closure refers to a captured variable through an entry of its upvalue list that names the
+// slot in the enclosing function: either one of its LOCALS or one of its own UPVALUES (kind),
+// at index upIndex.  Asking for the same (upIndex, kind) again must give the same entry, and
+// asking for a different pair must never give an entry of another pair — a local slot N and an
+// upvalue N of the enclosing function are different variables.
+func (*BytecodeCompiler).addUpvalue
+  props C13
+  requires c != nil && local != nil && c.bytecode != nil && (forall k int :: 0 <= k && k < len(c.upvalues) ==> elem(c.upvalues, k) != nil)
+  ensures match: ret != nil && ret.upIndex == upIndex && ret.kind == kind
+  ensures member: exists k int :: 0 <= k && k < len(c.upvalues) && elem(c.upvalues, k) == ret
+  ensures kept: len(c.upvalues) >= old(len(c.upvalues)) && (forall k int :: 0 <= k && k < old(len(c.upvalues)) ==> elem(c.upvalues, k) == old(elem(c.upvalues, k)))
+  loop 1
+    invariant forall j int :: 0 <= j && j < range_idx ==> !(elem(c.upvalues, j).upIndex == upIndex && elem(c.upvalues, j).kind == kind)
+    decreases len(c.upvalues) - range_idx
 @*/
